@@ -169,6 +169,135 @@ theorem exQL_reparam :
     ∧ exLa.basis 0 = openBasis 3 (clampedU 0 1 [1/3, 1/2, 2/3]) (clampedM 3 [0, 1, 0]) := by
   refine ⟨?_, ?_, ?_⟩ <;> decide +kernel
 
+/-- A rational LINEAR curve on `[1,3]` (the partner of `exQ` in the worked example of the harness with
+    different orders) and its `reparam` stage. -/
+def exL2 : Obj ℚ :=
+  { bases := #[⟨2, #[1, 1, 2, 3, 3], -1⟩],
+    cps := ⟨[3, 4], #[0, 0, 1, 1, 1, 2, 0, 2, 2, 1, 3, 1]⟩, rational := true }
+def exL2a : Obj ℚ :=
+  { bases := #[⟨2, #[0, 0, 1/2, 1, 1], -1⟩],
+    cps := ⟨[3, 4], #[0, 0, 1, 1, 1, 2, 0, 2, 2, 1, 3, 1]⟩, rational := true }
+
+theorem exL2_basis_valid : (exL2.basis 0).Valid where
+  order_pos := by decide
+  size_ge := by decide
+  sorted := by
+    intro i hi
+    have hi' : i + 1 < 5 := hi
+    have hi'' : i < 4 := by omega
+    interval_cases i <;> norm_num [Basis.kn, exL2, Obj.basis]
+  periodic_ge := by decide
+  periodic_le := by decide
+  start_lt_stop := by norm_num [Basis.start, Basis.stop, Basis.kn, exL2, Obj.basis]
+  ghosts := fun h => absurd h (by decide)
+
+theorem exL2_wf : C06.WF exL2 1 where
+  size := rfl
+  valid := by
+    intro d
+    match d with
+    | ⟨0, _⟩ => exact exL2_basis_valid
+  shape := by decide
+
+theorem exQL2_reparam :
+    Obj.stageReparam (exQ, exL2) 0 = .ok (exQa, exL2a)
+    ∧ exQa.basis 0 = openBasis 3 (clampedU 0 1 [1/3, 1/2, 2/3]) (clampedM 3 [1, 0, 2])
+    ∧ exL2a.basis 0 = openBasis 2 (clampedU 0 1 [1/3, 1/2, 2/3]) (clampedM 2 [0, 1, 0]) := by
+  refine ⟨?_, ?_, ?_⟩ <;> decide +kernel
+
+/-- Two bilinear / mixed-order surfaces for the any-pardim theorem: direction 0 has order 2 in both
+    (`[0,0,1,2,2]` on `[0,2]` against `[0,0,4,4]` on `[0,4]`), direction 1 differs (order 2 against 3). -/
+def exSu0 : Basis ℚ := ⟨2, #[0, 0, 1, 2, 2], -1⟩
+def exSu1 : Basis ℚ := ⟨2, #[0, 0, 1, 1], -1⟩
+def exSv0 : Basis ℚ := ⟨2, #[0, 0, 4, 4], -1⟩
+def exSv1 : Basis ℚ := ⟨3, #[0, 0, 0, 1, 1, 1], -1⟩
+def exSA : Obj ℚ :=
+  { bases := #[exSu0, exSu1], cps := ⟨[3, 2, 2], #[0, 0, 0, 1, 1, 0, 1, 2, 3, 0, 3, 1]⟩, rational := false }
+def exSB : Obj ℚ :=
+  { bases := #[exSv0, exSv1], cps := ⟨[2, 3, 2], #[0, 0, 0, 1, 0, 3, 2, 0, 2, 2, 3, 3]⟩, rational := false }
+def exSAa : Obj ℚ :=
+  { bases := #[⟨2, #[0, 0, 1/2, 1, 1], -1⟩, exSu1], cps := ⟨[3, 2, 2], #[0, 0, 0, 1, 1, 0, 1, 2, 3, 0, 3, 1]⟩,
+    rational := false }
+def exSBa : Obj ℚ :=
+  { bases := #[⟨2, #[0, 0, 1, 1], -1⟩, exSv1], cps := ⟨[2, 3, 2], #[0, 0, 0, 1, 0, 3, 2, 0, 2, 2, 3, 3]⟩,
+    rational := false }
+
+theorem exSu0_valid : (exSu0).Valid where
+  order_pos := by decide
+  size_ge := by decide
+  sorted := by
+    intro i hi
+    have hi' : i + 1 < 5 := hi
+    have hi'' : i < 4 := by omega
+    interval_cases i <;> norm_num [Basis.kn, exSu0]
+  periodic_ge := by decide
+  periodic_le := by decide
+  start_lt_stop := by norm_num [Basis.start, Basis.stop, Basis.kn, exSu0]
+  ghosts := fun h => absurd h (by decide)
+
+theorem exSu1_valid : (exSu1).Valid where
+  order_pos := by decide
+  size_ge := by decide
+  sorted := by
+    intro i hi
+    have hi' : i + 1 < 4 := hi
+    have hi'' : i < 3 := by omega
+    interval_cases i <;> norm_num [Basis.kn, exSu1]
+  periodic_ge := by decide
+  periodic_le := by decide
+  start_lt_stop := by norm_num [Basis.start, Basis.stop, Basis.kn, exSu1]
+  ghosts := fun h => absurd h (by decide)
+
+theorem exSv0_valid : (exSv0).Valid where
+  order_pos := by decide
+  size_ge := by decide
+  sorted := by
+    intro i hi
+    have hi' : i + 1 < 4 := hi
+    have hi'' : i < 3 := by omega
+    interval_cases i <;> norm_num [Basis.kn, exSv0]
+  periodic_ge := by decide
+  periodic_le := by decide
+  start_lt_stop := by norm_num [Basis.start, Basis.stop, Basis.kn, exSv0]
+  ghosts := fun h => absurd h (by decide)
+
+theorem exSv1_valid : (exSv1).Valid where
+  order_pos := by decide
+  size_ge := by decide
+  sorted := by
+    intro i hi
+    have hi' : i + 1 < 6 := hi
+    have hi'' : i < 5 := by omega
+    interval_cases i <;> norm_num [Basis.kn, exSv1]
+  periodic_ge := by decide
+  periodic_le := by decide
+  start_lt_stop := by norm_num [Basis.start, Basis.stop, Basis.kn, exSv1]
+  ghosts := fun h => absurd h (by decide)
+
+theorem exSA_wf : C06.WF exSA 2 where
+  size := rfl
+  valid := by
+    intro d
+    match d with
+    | ⟨0, _⟩ => exact exSu0_valid
+    | ⟨1, _⟩ => exact exSu1_valid
+  shape := by decide
+
+theorem exSB_wf : C06.WF exSB 2 where
+  size := rfl
+  valid := by
+    intro d
+    match d with
+    | ⟨0, _⟩ => exact exSv0_valid
+    | ⟨1, _⟩ => exact exSv1_valid
+  shape := by decide
+
+theorem exS_reparam :
+    Obj.stageReparam (exSA, exSB) 0 = .ok (exSAa, exSBa)
+    ∧ exSAa.basis 0 = openBasis 2 (clampedU 0 1 [1/2]) (clampedM 2 [1])
+    ∧ exSBa.basis 0 = openBasis 2 (clampedU 0 1 [1/2]) (clampedM 2 [0]) := by
+  refine ⟨?_, ?_, ?_⟩ <;> decide +kernel
+
 end C12
 
 end Splipy
